@@ -1,27 +1,12 @@
 INIT Init
 NEXT Next
 CONSTANTS
-  Keys <- K2
-  AllowedKeys <- None
-  AllowedModes <- No
-  Forms = {"bare", "n", "nstar", "dec"}
-  IntCoefs <- I_q
-  DecCoefs <- D_q
-  InactCoefs <- N_q
-  MaxReac = 2
-  MaxProd = 1
-  MaxInact = 1
-  Arrows = {"->"}
-  Params <- None
-  Kws <- None
-  MaxLines = 1
-  Comments <- None
-  MaxComments = 0
-  PrintOpts <- O_two
-  FaultKinds <- None
+  SliceTable <- AllSlices
+  SliceNames = {"coefs_q"}
 INVARIANT TypeOK
 INVARIANT RepeatedSpeciesSummed
 INVARIANT InactiveNeverActive
 INVARIANT ParsePrintIdentity
+INVARIANT TextWins
 INVARIANT Emit
 CHECK_DEADLOCK FALSE
